@@ -553,6 +553,35 @@ func (fv *FV) checkPost(st *State, x *ssa.Return, res []SymVal) {
 	}
 	var errs []string
 	env := fv.stateEnv(st, &errs)
+	// locals may be named in ensures clauses (guarded by what makes them meaningful): one that has not
+	// been declared on this path has its zero value
+	strict := fv.cellLookup(st)
+	lenient := func(name string) (Term, bool) {
+		if t, ok := strict(name); ok {
+			return t, true
+		}
+		for _, b := range fv.fn.Blocks {
+			for _, in := range b.Instrs {
+				if a, ok := in.(*ssa.Alloc); ok && a.Comment == name && !fv.isHeapObject(a) {
+					el := a.Type().(*types.Pointer).Elem()
+					return fv.zero(el), true
+				}
+			}
+		}
+		return Term{}, false
+	}
+	env.cells = lenient
+	if env.prev != nil {
+		snapStrict := env.prev.cells
+		env.prev.cells = func(name string) (Term, bool) {
+			if snapStrict != nil {
+				if t, ok := snapStrict(name); ok {
+					return t, true
+				}
+			}
+			return lenient(name)
+		}
+	}
 	fv.bindResults(env, st, fv.fn.Signature, res, nil)
 	for _, f := range fv.fn.FreeVars {
 		if cv, ok := st.cells[CellID{Frame: 0, A: f}]; ok && cv.K == VTerm {
